@@ -84,6 +84,9 @@ def _block(gen, ep_stub, kind=None):
         pairs.append((rng.choice([b'', b'X-Upper', b'connection', b' sp', b'te', b':late']), rng.choice([b'', b'x', b'\xff\xfe', b'gzip'])))
     if rng.random() < 0.08:
         pairs.append((rng.choice([b'1', b'_', b'-', b'2-1', b'x1']), b'v'))
+    if rng.random() < 0.1:
+        # bytes that are not UTF-8, in a field that is fine otherwise (an endpoint with header_encoding must cope)
+        pairs.append(rng.choice([(b'x-bin', b'\xff\xfe'), (b'x-bin', b'caf\xe9'), (b'x-\xff', b'v'), (b'cookie', b'a=\x80')]))
     if kind == 'request' and rng.random() < gen.P.get('adv_hostauth', 0.06):
         pairs = [(n, v) for n, v in pairs if n not in (b':authority', b'host')]
         a_, h_ = rng.choice([(b'', b'evil.example'), (b'example.com', b''), (b'a', b'a')])
